@@ -117,7 +117,13 @@ def exercise_gfa(gd, g):
     if st_ == "ok":
         for l in lines[:8]:
             exercise_line(gd, l)
-    gd.call("gfa.names", lambda: g.names)
+    st_, names = gd.call("gfa.names", lambda: list(g.names))
+    if st_ == "ok" and names:
+        # strings handed back to the API: look up and remove a few of the identifiers
+        for nm in [names[0], names[-1], names[len(names) // 2]]:
+            gd.call("gfa.line(%r)" % (nm,), g.line, nm)
+            gd.call("gfa.rm(%r)" % (nm,), g.rm, nm)
+        gd.call("str(gfa) after rm", str, g)
 
 
 def load_doc(gd, text, cfg):
@@ -163,7 +169,7 @@ def prop_text(case):
 def mutate_text(r, text, k):
     lines = text.split("\n")
     for _ in range(k):
-        m = r.randrange(12)
+        m = r.randrange(13)
         if not lines:
             lines = [""]
         i = r.randrange(len(lines))
@@ -224,6 +230,20 @@ def mutate_text(r, text, k):
             else:
                 lines.pop(i)
                 lines.insert(r.randint(0, len(lines)), ln)
+                continue
+        elif m == 8:  # two groups that list each other (or a group that lists itself)
+            gl = [j for j, x in enumerate(lines) if x[:2] in ("O\t", "U\t") and x.count("\t") >= 2 and x.split("\t")[1] not in ("", "*")]
+            if gl:
+                a, b = gen.choice(r, gl), gen.choice(r, gl)
+                for x, y in ((a, b), (b, a)):
+                    f = lines[x].split("\t")
+                    other = lines[y].split("\t")[1]
+                    f[2] = (f[2] + " " + other + ("+" if f[0] == "O" else "")).strip()
+                    lines[x] = "\t".join(f)
+                continue
+            elif len(lines) < 60:
+                lines.append(gen.choice(r, ["U\tuc1\tuc2 A\nU\tuc2\tuc1 B", "O\toc1\toc2+ A+\nO\toc2\toc1- B+", "U\tuc1\tuc1",
+                                            "U\tuc1\tuc2\nU\tuc2\tuc3\nU\tuc3\tuc1 A"]))
                 continue
         elif m == 9:  # reuse an identifier of another line (as a field or as an ID tag)
             idents = [x.split("\t")[1] for x in lines if x.count("\t") >= 1 and x.split("\t")[1] not in ("", "*")]
@@ -351,6 +371,20 @@ FIELDS = ["name", "sid", "sequence", "slen", "LN", "xx", "ab", "VN", "TS", "from
 VALUES = ["", "*", "1", "-1", "1.5", "abc", "A", "A+", "A+,B-", "A B", "2M", "2M1I", "1,2", "0$", "4$", "$", "{}", "[1]", "{",
           "00FF", "0", "c,1,2", "c,300", "f,1", "x" * 100, "a\tb", "a\nb", "é", "+", "-", "1e5", "nan", "1_0"]
 TYPES = ["i", "f", "Z", "A", "J", "H", "B", "", "Q", "ii", "*", "cmt", "generic"]
+# the fields each line of the base documents really has: half of the line calls aim at them
+RT_FIELDS = {
+    "gfa1": {"H": ["VN"], "S": ["name", "sequence", "LN", "xx"],
+             "L": ["from_segment", "from_orient", "to_segment", "to_orient", "overlap", "ID", "from", "to"],
+             "C": ["from_segment", "to_segment", "pos", "overlap", "container", "contained"],
+             "P": ["path_name", "segment_names", "overlaps", "ab", "name"]},
+    "gfa2": {"H": ["VN", "TS"], "S": ["sid", "slen", "sequence", "xx", "name"],
+             "E": ["eid", "sid1", "sid2", "beg1", "end1", "beg2", "end2", "alignment", "name"],
+             "G": ["gid", "sid1", "sid2", "disp", "var", "name"],
+             "F": ["sid", "external", "s_beg", "s_end", "f_beg", "f_end", "alignment"],
+             "O": ["pid", "items", "name"], "U": ["pid", "items", "name"], "X": ["field1", "field2", "ab"]},
+}
+VALUES2 = ["A+", "B-", "B+", "read2+", "read1-", "nope+", "B", "A", "o1", "u1", "e1", "C", "new1", "A+ B-", "A+,B-", "B A", "2M", "*",
+           "0", "1", "4$", "9$", "3", "10"]
 
 
 def prop_api(case):
@@ -366,8 +400,10 @@ def prop_api(case):
             _k, meth, arg = op
             gd.call("gfa.%s(%r)" % (meth, arg), getattr(g, meth), arg)
         else:
-            _k, li, meth, args = op
+            _k, li, meth, args = op[:4]
             st_, lines = gd.call("gfa.lines", lambda: g.lines + [g.header])
+            if k == "line_rt" and st_ == "ok":
+                lines = [x for x in lines if x.record_type == op[4]]
             if st_ != "ok" or not lines:
                 continue
             l = lines[li % len(lines)]
@@ -386,6 +422,7 @@ def prop_api(case):
 def st_api_case(draw):
     r = draw(st.randoms(use_true_random=False))
     ops = []
+    version = gen.choice(r, ["gfa1", "gfa2"])
     for _ in range(r.randint(1, 6)):
         if gen.chance(r, 0.35):
             meth = gen.choice(r, ["line", "segment", "try_get_line", "try_get_segment", "rm", "fragments_for_external",
@@ -397,15 +434,28 @@ def st_api_case(draw):
         else:
             meth = gen.choice(r, ["get", "try_get", "set", "delete", "set_datatype", "validate_field", "field_to_s",
                                   "get_datatype", "set", "set"])
-            fn = gen.choice(r, FIELDS)
+            rt = None
+            if gen.chance(r, 0.5):
+                rt = gen.choice(r, sorted(RT_FIELDS[version]))
+                fn = gen.choice(r, RT_FIELDS[version][rt])
+            else:
+                fn = gen.choice(r, FIELDS)
+            if gen.chance(r, 0.08):
+                meth = "disconnect"
             if meth == "set":
-                args = [fn, gen.choice(r, VALUES)]
+                args = [fn, gen.choice(r, VALUES2 if rt and gen.chance(r, 0.6) else VALUES)]
             elif meth == "set_datatype":
                 args = [fn, gen.choice(r, TYPES)]
+            elif meth == "disconnect":
+                args = []
             else:
                 args = [fn]
-            ops.append(["line", r.randrange(20), meth, args])
-    return {"version": gen.choice(r, ["gfa1", "gfa2"]), "vlevel": r.randrange(4), "ops": ops}
+            ops.append(["line_rt", r.randrange(20), meth, args, rt] if rt else ["line", r.randrange(20), meth, args])
+    if gen.chance(r, 0.5):
+        # what an edit left behind shows when lines are removed afterwards
+        for _ in range(r.randint(1, 2)):
+            ops.append(["gfa", "rm", gen.choice(r, NAMES[:9])])
+    return {"version": version, "vlevel": r.randrange(4), "ops": ops}
 
 
 def prop_fuzz(case):
